@@ -451,6 +451,65 @@ PROPS["C14"] = dict(
     level_note="Trusted: Kani/CBMC; tokio contract model (sequentialised schedules at synchronisation operations).",
 )
 
+# ------------------------------------------------------------------------------------------------
+# unit "eph": S2 include! of p2panda/src/streams/ephemeral_stream.rs
+# ------------------------------------------------------------------------------------------------
+_EPH = "p2panda/src/streams/ephemeral_stream.rs"
+UNITS["eph"] = dict(
+    name="eph",
+    stage=[("repo",), ("crate", "harness/eph"), ("lock",), SYM, ("shared", "models/mcodec.rs", "src/mcodec.rs"),
+           ("mount", _EPH, "src/staged/ephemeral_stream.rs",
+            [(r"^use std::sync::\{Arc, Mutex\};$", "use std::sync::Arc; use crate::verif_sync::Mutex;", 1), INNER_DOCS, STRIP_TESTS])],
+    repo_paths=["src/staged/", "/repo/"],
+    native_features=["replay"],
+    mem_gb=30,
+    functions=[(_EPH, "EphemeralStreamSubscription::poll_next", r"fn poll_next\(mut self: Pin<&mut Self>"),
+               (_EPH, "WrappedMessage::new", r"pub fn new\("),
+               (_EPH, "WrappedMessage::verify", r"pub fn verify\(&self\)"),
+               (_EPH, "WrappedMessage::sign", r"^    fn sign\("),
+               (_EPH, "WrappedMessage::to_bytes", r"pub fn to_bytes\(&self\)"),
+               (_EPH, "EphemeralStreamPublisher::publish", r"pub async fn publish\(&self, message: M\)"),
+               ("p2panda-core/src/timestamp.rs", "HybridTimestamp::increment", r"pub fn increment\(self\) -> Self \{", r"impl HybridTimestamp")],
+    harnesses=[
+        dict(name="unit::proofs::valid_first", prop="C17", timeout=300, encodes="EphemeralStreamSubscription::poll_next", bounds="script: one valid message"),
+        dict(name="unit::proofs::one_junk_then_valid", prop="C17", timeout=300, encodes="EphemeralStreamSubscription::poll_next", bounds="script: 1 item, each invalid or lagged (symbolic), then a valid message; wake-driven executor, <= 3 polls"),
+        dict(name="unit::proofs::two_junk_then_valid", prop="C17", tier="thorough", timeout=900, encodes="as above", bounds="2 junk items then a valid message"),
+        dict(name="unit::proofs::three_junk_then_valid", prop="C17", tier="thorough", timeout=1200, encodes="as above", bounds="3 junk items then a valid message"),
+        dict(name="unit::proofs::junk_then_closed_ends", prop="C17", timeout=300, encodes="as above", bounds="1 junk item, then the underlying stream is closed"),
+        dict(name="unit::c16::tampered_message_is_rejected", prop="C16", timeout=600, encodes="WrappedMessage::{new, sign, verify} on the model codec with the idealised signature",
+             bounds="body u8, all u64 timestamp/lamport values, 6 single-field mutations incl. any signature byte"),
+        dict(name="unit::c16::successive_publishes_have_increasing_timestamps", prop="C16", timeout=600,
+             encodes="EphemeralStreamPublisher::publish x2, HybridTimestamp::increment (encoding and signing are constant stubs here; they are the subject of the tamper harness)",
+             bounds="arbitrary initial hybrid timestamp (lamport < u64::MAX-2), two independent wall-clock readings"),
+    ],
+)
+_EPH_TB = ["Kani 0.68 / CBMC 6.11 / cadical",
+           "model: p2panda_net::gossip::{GossipSubscription, GossipHandle} replaced by a scripted Stream honouring the Stream contract (registers the waker iff it returns Pending with nothing queued) and a recording publisher",
+           "model: tracing macros are no-ops; crate::forge is a shim that only holds the signing key",
+           "model: std::sync::Mutex (publisher's timestamp cell) replaced by a single-threaded exclusion cell"]
+PROPS["C17"] = dict(
+    units=["eph"],
+    trusted_base=_EPH_TB + ["stub: WrappedMessage::from_bytes returns a verdict carried in the payload (decode+verify are not the subject; natively real CBOR + Ed25519 on real bytes)"],
+    assumptions=["a wake-driven executor: after Pending the stream is polled again only if its waker was woken", "<= 3 invalid/lagged items in front of the valid one"],
+    bounds="scripts of 0..3 junk items (each invalid-or-lagged symbolic) followed by a valid message, and junk followed by stream end",
+    outside="the real broadcast channel inside GossipSubscription; longer junk prefixes (each is one more instance of the same step)",
+    level_text=("Bounded model checking of the real EphemeralStreamSubscription::poll_next driven the way an executor drives a Stream: for every mix of invalid and lagged items in front of a valid "
+                "message the message is yielded and Pending is never returned with items queued and no wake-up scheduled."),
+    level_note="Trusted: Kani/CBMC; scripted subscription honouring the Stream contract; decode/verify verdict stubbed.",
+)
+PROPS["C16"] = dict(
+    units=["eph"],
+    trusted_base=_EPH_TB + ["model codec stands for ciborium on the encode side", "idealised Ed25519: sign records (message, signature), verify accepts exactly the recorded triple",
+                            "stub: Timestamp::now returns an arbitrary u64 per publish"],
+    assumptions=["message body type u8", "lamport part < u64::MAX - 2"],
+    bounds="all timestamp values, 6 single-field mutations of a signed message; two publishes under two arbitrary clock readings",
+    outside="WrappedMessage::from_bytes' CBOR decoding (byte-level ciborium); the gossip overlay; re-signing by another key is modelled as 'author field replaced' (the reported author is then the re-signer)",
+    level_text=("Bounded model checking of the real WrappedMessage::{new,sign,verify} (p2panda's Serialize impls on a model codec, idealised signature) and of EphemeralStreamPublisher::publish with the wall "
+                "clock as a symbolic variable: every tampered field is rejected, and two successive publishes carry strictly increasing timestamps and differ in their bytes for ANY clock readings. "
+                "PARTIAL: the decode half (from_bytes) is outside."),
+    level_note="Trusted: Kani/CBMC; ciborium -> model codec (encode side), Ed25519 idealised, clock symbolic.",
+)
+
 PROPS["C18"].update(
     level_text=("Bounded model checking of the real HybridTimestamp::increment: the solver decides the strict-increase "
                 "assertion for every 64-bit (timestamp, lamport, wall-clock) triple and for chains of two increments with "
